@@ -646,6 +646,13 @@ class Engine:
                 if hasattr(base, 'delitem'):
                     base.delitem(self, self.eval(t.slice))
                     continue
+            if isinstance(t, ast.Attribute):
+                base = self.eval(t.value)
+                if isinstance(base, Obj):
+                    if t.attr not in base.f:
+                        raise PyRaise('AttributeError')
+                    del base.f[t.attr]
+                    continue
             raise Unsupported('del form')
 
     def x_With(self, n):
@@ -1877,6 +1884,9 @@ class Engine:
         if recv == '' and name == 'join' and isinstance(args[0], PyList):
             from .models.text import Joined
             return Joined(list(args[0].items))
+        if isinstance(recv, dict) and name == 'update' and len(args) == 1 and isinstance(args[0], dict) and not kwargs:
+            recv.update(args[0])
+            return None
         if isinstance(recv, dict) and name == 'get':
             return recv.get(args[0], args[1] if len(args) > 1 else None)
         if hasattr(recv, 'method'):
@@ -2097,6 +2107,8 @@ class Engine:
                 return zint(v.hi) - zint(v.lo)
             if hasattr(v, 'len'):
                 return v.len(self)
+            if isinstance(v, Obj) and '__len__' in v.f:
+                return v.f['__len__']
             if isinstance(v, Obj) and self.find_contract(v.cls, '__len__') is not None:
                 return self.call_contract_or_inline(self.find_contract(v.cls, '__len__'), v, [], {})
             if isinstance(v, bytes):
